@@ -166,6 +166,8 @@ def c15b(ctx, tu):
             ctx.ob("C15.b", f.qe, None, detail="unexpected report call shape")
             continue
         org = origins(tu, f, args[1])
+        if any(o.endswith("(no caller in unit)") for o in org):
+            continue    # this unit does not contain the callers (an inline function nobody uses here)
         if spec == "empty":
             ok = org == {"empty trompeloeil::location"}
             why = "location argument should be the empty location{}; it is " + ", ".join(sorted(org))
